@@ -169,6 +169,52 @@ def run(ctx, F):
               expected="every path that installs cursor/limit also stores self.line", found="cursor stores %s line stores %s" % (cur_st, [b for b, _, _ in line_st]),
               where=where(fr), key="C02.take-before-return|recyclable")
 
+    # ---- C02.extent: what the allocator / the line marker accounts for covers the whole object
+    la = F.fn("<util::alloc::large_object_allocator::LargeObjectAllocator as util::alloc::allocator::Allocator>::alloc_slow_once")
+    ap = live_calls(la, name="allocate_pages")
+    ctx.judge(len(ap) >= 1, "C02.extent", "LargeObjectAllocator::alloc_slow_once acquires pages from the LOS", expected=">=1 allocate_pages call", found=str(len(ap)),
+              where=where(la), key="C02.extent|los-pages-site")
+    for c in ap:
+        s = show(strip(la.flow.arg_tree(c, 2)))
+        okp = re.match(r"^conversions::bytes_to_pages_up\(allocator::get_maximum_aligned_size\(arg2, arg3\)\)$", s) is not None
+        ctx.judge(okp, "C02.extent", "LOS page count covers size plus worst-case alignment slack on every path",
+                  expected="allocate_pages(.., bytes_to_pages_up(get_maximum_aligned_size(size, align)), ..) with no alternative definition", found=s[:200],
+                  where=where(la, c.line), key="C02.extent|los-pages")
+    ml = F.fn("policy::immix::line::Line::mark_lines_for_object")
+    ri = live_calls(ml, name="new")
+    ri = [c for c in ri if c.q and "RegionIterator" in c.q]
+    ctx.judge(len(ri) == 1, "C02.extent", "Line::mark_lines_for_object iterates one line range", expected="one RegionIterator::new", found=str(len(ri)), where=where(ml),
+              key="C02.extent|line-iter-site")
+    for c in ri:
+        a0 = show(strip(ml.flow.arg_tree(c, 0)))
+        a1 = show(strip(ml.flow.arg_tree(c, 1)))
+        ok0 = a0 == "Region::from_unaligned_address(ObjectReference::to_object_start(arg1))"
+        endx = "<Address as Add<usize>>::add(ObjectReference::to_object_start(arg1), ObjectModel::get_current_size(arg1))"
+        ok1 = "Region::next(Region::from_unaligned_address(%s))" % endx in a1 and "to_raw_address" not in a1 and a1.startswith("phi(")
+        ctx.judge(ok0 and ok1, "C02.extent", "marked line range spans [object start, object start + current size)",
+                  expected="first line = line of to_object_start(object); end line = line after (start + get_current_size) unless aligned",
+                  found="start=%s end=%s" % (a0[:120], a1[:200]), where=where(ml, c.line), key="C02.extent|line-range")
+    mk = live_calls(ml, name="mark")
+    ctx.judge(len(mk) == 1 and not [p for p in guards(ml, mk[0].bb) if "is_marked" not in show(p.tree) and "Iterator>::next" not in show(p.tree)], "C02.extent",
+              "every line of the range is marked", expected="Line::mark guarded only by the iterator (and the optional already-marked test)",
+              found=str([guard_strs(ml, c.bb) for c in mk])[:200], where=where(ml), key="C02.extent|line-mark")
+    # callers: every Immix path that keeps an object alive marks its lines (unless block-only)
+    mlc = {cs.fn.q for cs in callers(F, ml.q)}
+    for need in ("policy::immix::immixspace::ImmixSpace::mark_lines",):
+        ctx.judge(need in mlc, "C02.extent", "%s calls Line::mark_lines_for_object" % short(need), expected="present", found=str(sorted(mlc)), key="C02.extent|line-caller|" + need)
+
+    # ---- C02.reuse-reset: the reusable-block list is rebuilt by every sweep, so every release must empty it first
+    rel = F.fn("policy::immix::immixspace::ImmixSpace::release")
+    rs = [c for c in live_calls(rel, name="reset") if c.q and "ReusableBlockPool" in c.q]
+    sweep = live_calls(rel, name="generate_sweep_tasks")
+    okr = bool(rs) and bool(sweep) and all(any(rel.cfg.dominates(r.bb, s.bb) for r in rs) for s in sweep)
+    ctx.judge(okr, "C02.reuse-reset", "ImmixSpace::release empties the reusable-block list before every sweep that refills it",
+              expected="ReusableBlockPool::reset dominates generate_sweep_tasks (nursery and full GCs alike)",
+              found="reset guards=%s" % [guard_strs(rel, c.bb) for c in rs], where=where(rel), key="C02.reuse-reset|release")
+    push_callers = {cs.fn.q for cs in callers(F, "policy::immix::block::ReusableBlockPool::push")}
+    ctx.judge(push_callers == {"policy::immix::block::Block::sweep"}, "C02.reuse-reset", "reusable blocks are pushed only by Block::sweep", expected="Block::sweep only",
+              found=str(sorted(push_callers)), key="C02.reuse-reset|push")
+
     # ---- C02.free-only-from-sweep
     census = {
         "util::heap::blockpageresource::BlockPageResource::release_block": {
